@@ -222,7 +222,10 @@ class SInt:
             return True
         return SBool(self.t != t)
 
-    __hash__ = None  # type: ignore[assignment]
+    def __hash__(self) -> int:  # type: ignore[override]
+        # hash() must hand Python a concrete number consistent with ==: the value is concretised (one path per feasible
+        # value; an unbounded one ends the path inconclusive) -- code that keys a dict on a symbolic integer is followed
+        return hash(cur().concretize(self.t))
 
     def __bool__(self) -> bool:
         return cur().branch(self.t != 0)
